@@ -53,7 +53,9 @@ class Cx:
 
     def check_floors(self):
         for k, n in sorted(self.counts.items()):
-            fl = self._floors.get(k)
+            fl = self._floors.get(self.pid, {}).get(k)
+            if fl is None:
+                fl = self._floors.get("*", {}).get(k)
             if fl is None:
                 continue
             self.ob(k.split(".")[0], "floor/" + k.split(".", 1)[1], n >= fl,
